@@ -1,6 +1,6 @@
 (* C10 — witnesses: the defects of the unrepaired tree (on the `*_pinned` model) and satisfiability of the theorems' hypotheses. *)
 From Coq Require Import ZArith List Bool Lia.
-From Verif Require Import Sections.SectionModel Sections.SectionProofs Sections.SectionTable Sections.CopyProofs Sections.ShrinkProofs.
+From Verif Require Import Sections.SectionModel Sections.SectionProofs Sections.SectionTable Sections.CopyProofs Sections.ShrinkProofs Sections.JitReloc.
 Import ListNotations.
 Local Open Scope Z_scope.
 
@@ -100,3 +100,14 @@ Proof.
     + split; [rng|]. split; [rng|]. right. exists 3. split; [lia|reflexivity].
   - split; [reflexivity|]. cbn [sbsize svsize]. split; [lia|]. repeat split; vm_compute; reflexivity.
 Qed.
+
+(* relocation on a concrete flattened holder: .text = two `call abs` (one target out of rel32 reach, one near), the address
+   table behind it; base 0x400000.  The bytes are those the real relocate_to_base + copy_flattened_data produce (corpus line). *)
+Definition ex_rel : holder :=
+  [ mkSection 0 INT_MIN 0 0 16 12 (CALL_BYTES ++ CALL_BYTES) []; mkSection 1 INT_MAX 8 16 16 0 [] [] ].
+
+Lemma ex_relocate : exists h2,
+  relocate_holder ex_rel (Some 1) [(0, 1311768467463790320); (6, 4198400)] 4194304 = inl (h2, 8) /\
+  map sdata h2 = [ [255; 21; 10; 0; 0; 0; 64; 232; 244; 15; 0; 0]; [240; 222; 188; 154; 120; 86; 52; 18] ] /\
+  map sbsize h2 = [12; 8] /\ map svsize h2 = [16; 8] /\ code_size h2 = 24.
+Proof. eexists. split; [vm_compute; reflexivity|]. repeat split; vm_compute; reflexivity. Qed.
